@@ -18,6 +18,21 @@ class NoEval(Exception):
     pass
 
 
+class Panic(Exception):
+    """The evaluated code panics on this input (unwrap of None/Err, unreachable!, panic!)."""
+
+
+def flag_tables(facts):
+    """{type: {flag name: bits}} of the crate's bitflags types"""
+    if getattr(facts, "_probe_flags", None) is None:
+        from . import emit
+
+        it = emit.Interp(facts)
+        it.flag_const(["Mode", "S_IRWXU"])
+        facts._probe_flags = {ty: {n: v for n, v in tab.items() if v is not None} for ty, tab in it._flagtys.items()}
+    return facts._probe_flags
+
+
 class Opq:
     """A value the evaluation knows nothing about (an external object); methods on it yield further unknowns."""
 
@@ -41,8 +56,15 @@ class Probe:
         self.module = tuple(module)
         self.depth = 0
         self.intercept = {}  # fn key -> callable(args) -> value
-        self.mhooks = {}  # method name -> callable(probe, expr, recv_value, arg_values) -> value | NotImplemented
+        self.mhooks = {}  # method name -> callable(probe, call expr, env) -> value | NotImplemented (nothing evaluated yet)
         self.lenient = False
+        self.opaque_log = []
+        self.opaque_calls = set()  # fn keys left uninterpreted: a call yields Opq(expr=("call", key, args))
+        self.flags = flag_tables(facts)
+        self.flagmask = 0
+        for tab in self.flags.values():
+            for v in tab.values():
+                self.flagmask |= v
         self.cur = []  # stack of functions being evaluated
 
     # ------------------------------------------------------------------ helpers
@@ -192,6 +214,8 @@ class Probe:
                 if self.find_fn(segs) is not None:
                     return ("fnref_path", e, tuple(self.cur[-1].module) if self.cur else self.module)
                 raise NoEval("name %s" % segs[0])
+            if segs[-2] in self.flags and segs[-1] in self.flags[segs[-2]]:
+                return self.flags[segs[-2]][segs[-1]]
             ce = self.const(segs[-1])
             if ce is not None:
                 return self.ev(ce, {})
@@ -205,7 +229,19 @@ class Probe:
                 return b[e["name"]]
             raise NoEval("field %s" % e["name"])
         if k == "unary" and e["op"] == "!":
-            return not self.ev(e["e"], env)
+            v = self.ev(e["e"], env)
+            if isinstance(v, Opq):
+                return Opq("!%r" % v, ("not", v))
+            if isinstance(v, bool):
+                return not v
+            if isinstance(v, int):
+                return ~v & self.flagmask
+            raise NoEval("! on %r" % (v,))
+        if k == "unary" and e["op"] == "-":
+            v = self.ev(e["e"], env)
+            if isinstance(v, int):
+                return -v
+            raise NoEval("negation")
         if k == "binary":
             op = e["op"]
             if op == "&&":
@@ -215,6 +251,10 @@ class Probe:
             if op in ("==", "!="):
                 r = self.ev(e["lhs"], env) == self.ev(e["rhs"], env)
                 return r if op == "==" else not r
+            if op in ("|=", "&=", "^=", "+=", "-=", "*=", "<<=", ">>="):
+                cont, key = self.place(e["lhs"], env)
+                cont[key] = self._ev(dict(e, op=op[:-1]), env)
+                return ()
             l, r = self.ev(e["lhs"], env), self.ev(e["rhs"], env)
             if isinstance(l, Opq) or isinstance(r, Opq):
                 return Opq("(%r %s %r)" % (l, op, r), ("bin", op, l, r))
@@ -262,9 +302,18 @@ class Probe:
                 return bool(self.ev(e["guard"], dict_view(env, b))) if e.get("guard") is not None else True
             if e["name"].split("::")[-1] in ("debug", "trace", "info", "warn", "error"):
                 return ()
+            if e["name"] in ("unreachable", "panic", "todo", "unimplemented"):
+                raise Panic("%s!() reached" % e["name"])
             raise NoEval("macro %s" % e["name"])
         if k in ("tuple", "array"):
             return [self.ev(x, env) for x in e["elems"]]
+        if k == "try":
+            v = self.ev(e["e"], env)
+            if isinstance(v, tuple) and v and v[0] in ("ok", "some"):
+                return v[1]
+            if v is None or (isinstance(v, tuple) and v and v[0] == "err"):
+                raise _Return(v)
+            raise NoEval("? on %r" % (v,))
         if k == "return":
             raise _Return(self.ev(e["e"], env) if e["e"] is not None else ())
         if k == "for":
@@ -330,6 +379,9 @@ class Probe:
                 env2.update(b)
             return self.ev(node["body"], env2)
         if isinstance(fv, tuple) and fv and fv[0] == "fnref_path":
+            b = self.builtin(fv[1]["segs"], list(args))
+            if b is not NotImplemented:
+                return b
             fn = self.find_fn(fv[1]["segs"])
             if fn is not None:
                 return self.invoke(fn, None, args)
@@ -344,6 +396,10 @@ class Probe:
     def invoke(self, fn, self_val, args):
         if fn.key in self.intercept:
             return self.intercept[fn.key](args)
+        if fn.key in self.opaque_calls:
+            allv = ([self_val] if self_val is not None else []) + list(args)
+            self.opaque_log.append((fn.key, allv))
+            return Opq("%s(%s)" % (fn.key, ", ".join(map(repr, allv))), ("call", fn.key, allv))
         self.cur.append(fn)
         try:
             return self._invoke(fn, self_val, args)
@@ -387,6 +443,8 @@ class Probe:
             args = [self.ev(a, env) for a in e["args"]]
         if segs == ["Some"] and len(args) == 1:
             return ("some", args[0])
+        if segs in (["Ok"], ["Err"]) and len(args) == 1:
+            return (segs[0].lower(), args[0])
         if segs[-2:] in (["String", "new"], ["String", "default"]) and not args:
             return ""
         if segs[-2:] == ["String", "from"] and len(args) == 1:
@@ -402,21 +460,61 @@ class Probe:
                 return out
         if len(segs) == 1 and segs[0] in env:
             return self.apply(env[segs[0]], args)
+        b = self.builtin(segs, args)
+        if b is not NotImplemented:
+            return b
         fn = self.find_fn(segs)
         if fn is not None:
             return self.invoke(fn, None, args)
         if len(segs) >= 2 and segs[-1][:1].isupper():
             ty = self.selfty if segs[-2] == "Self" else segs[-2]
             return ("enum", "%s::%s" % (ty, segs[-1]), args)
+        if len(segs) == 1 and segs[0][:1].isupper() and (segs[0] in self.f.structs or segs[0] == "Self"):
+            return ("enum", self.selfty if segs[0] == "Self" else segs[0], args)  # tuple struct
         raise NoEval("call %s" % "::".join(segs))
+
+    def builtin(self, segs, args):
+        """std / bitflags associated functions"""
+        if len(segs) >= 2 and segs[-1] == "from_str_radix" and len(args) == 2 and isinstance(args[0], str) and isinstance(args[1], int):
+            bits = {"u8": 8, "u16": 16, "u32": 32, "u64": 64, "usize": 64}.get(segs[-2])
+            try:
+                if bits is None or not args[0] or args[0][0] in "+-_ " and segs[-2][0] == "u" and args[0][0] != "+":
+                    raise ValueError
+                v = int(args[0], args[1])
+                if "_" in args[0] or args[0] != args[0].strip() or v >= 2 ** bits or v < 0:
+                    raise ValueError
+                return ("ok", v)
+            except ValueError:
+                return ("err", Opq("ParseIntError"))
+        if len(segs) == 2 and segs[0] in self.flags:
+            allbits = 0
+            for v in self.flags[segs[0]].values():
+                allbits |= v
+            if segs[1] == "empty" and not args:
+                return 0
+            if segs[1] == "all" and not args:
+                return allbits
+            if segs[1] == "from_bits" and len(args) == 1 and isinstance(args[0], int):
+                return ("some", args[0]) if args[0] & ~allbits == 0 else None
+            if segs[1] == "from_bits_truncate" and len(args) == 1 and isinstance(args[0], int):
+                return args[0] & allbits
+            if segs[1] == "from_bits_retain" and len(args) == 1 and isinstance(args[0], int):
+                return args[0]
+            if segs[1] in ("from_bits", "from_bits_truncate", "from_bits_retain") and len(args) == 1 and isinstance(args[0], Opq):
+                return Opq("%s::%s(%r)" % (segs[0], segs[1], args[0]), ("call", "::".join(segs), list(args)))
+        return NotImplemented
 
     def mcall(self, e, env):
         m = e["m"]
-        recv = self.ev(e["recv"], env)
         if m in self.mhooks:
-            r = self.mhooks[m](self, e, recv, [self.ev(a, env) for a in e["args"]])
+            r = self.mhooks[m](self, e, env)
             if r is not NotImplemented:
                 return r
+        recv = self.ev(e["recv"], env)
+        if m in ("unwrap", "expect") and (recv is None or (isinstance(recv, tuple) and recv and recv[0] in ("some", "ok", "err"))):
+            if recv is None or recv[0] == "err":
+                raise Panic("%s() on %s" % (m, "None" if recv is None else "Err"))
+            return recv[1]
         if isinstance(recv, Opq):
             if m in ("clone", "to_owned", "borrow", "as_ref") and not e["args"]:
                 return recv
@@ -461,6 +559,43 @@ class Probe:
                 return self.invoke(fn, recv, [self.ev(a, env) for a in e["args"]])
         if m in ("as_ref", "as_deref", "as_str", "clone", "to_owned", "to_string", "as_mut", "borrow", "into", "iter", "into_iter", "copied", "cloned") and not e["args"]:
             return copy.copy(recv) if m == "clone" and isinstance(recv, dict) else recv
+        if m == "chars" and isinstance(recv, str) and not e["args"]:
+            return list(recv)
+        if m in ("chars", "as_str", "collect", "into_iter", "iter", "by_ref") and isinstance(recv, list):
+            return recv
+        if isinstance(recv, list) and m in ("map", "filter", "reduce", "filter_map", "for_each"):
+            fv = self.ev(e["args"][0], env)
+            if m == "map":
+                return [self.apply(fv, [x]) for x in recv]
+            if m == "filter":
+                return [x for x in recv if self.apply(fv, [x])]
+            if m == "filter_map":
+                out = [self.apply(fv, [x]) for x in recv]
+                return [x[1] for x in out if x is not None]
+            if m == "for_each":
+                for x in recv:
+                    self.apply(fv, [x])
+                return ()
+            if not recv:
+                return None
+            acc = recv[0]
+            for x in recv[1:]:
+                acc = self.apply(fv, [acc, x])
+            return ("some", acc)
+        if isinstance(recv, int) and not isinstance(recv, bool):
+            if m in ("bits", "clone") and not e["args"]:
+                return recv
+            if m == "complement" and not e["args"]:
+                return ~recv & self.flagmask
+            if m in ("union", "intersection", "difference", "symmetric_difference", "contains", "intersects") and len(e["args"]) == 1:
+                x = self.ev(e["args"][0], env)
+                if isinstance(x, int):
+                    return {"union": recv | x, "intersection": recv & x, "difference": recv & ~x, "symmetric_difference": recv ^ x, "contains": recv & x == x, "intersects": recv & x != 0}[m]
+            if m in ("checked_mul", "checked_add", "checked_sub") and len(e["args"]) == 1:
+                x = self.ev(e["args"][0], env)
+                if isinstance(x, int):
+                    r = {"checked_mul": recv * x, "checked_add": recv + x, "checked_sub": recv - x}[m]
+                    return ("some", r) if 0 <= r < 2 ** 64 else None
         if m == "contains" and isinstance(recv, str) and len(e["args"]) == 1:
             a = self.ev(e["args"][0], env)
             if isinstance(a, str):
